@@ -333,7 +333,8 @@ fn source_of(p: &Value) -> String {
     if let Some(s) = p["src"].as_str() {
         return s.to_string();
     }
-    prog::render(&prog::block_from_json(&p["prog"]))
+    // "pad": leading blank lines / spaces (layout twins: same length, same text, other line numbers)
+    format!("{}{}", p["pad"].as_str().unwrap_or(""), prog::render(&prog::block_from_json(&p["prog"])))
 }
 
 thread_local! {
@@ -376,12 +377,29 @@ impl C14 {
         let order: Vec<usize> = case["order"].as_array().unwrap().iter().map(|x| x.as_u64().unwrap() as usize).collect();
         let scribbles = case["scribble"].as_array().cloned().unwrap_or_default();
         let mut seen: Vec<Option<Shown>> = vec![None; progs.len()];
+        // the references first, each program alone, so that the session's runs follow one another
+        // with nothing in between (as in a playground instance)
+        let mut alone_of: Vec<Option<Shown>> = vec![None; progs.len()];
+        for &pi in &order {
+            if alone_of[pi].is_none() {
+                stage(&format!("alone {pi}"));
+                alone_of[pi] = Some(isolated_run(&source_of(&progs[pi]), "playground.ns", progs[pi]["plant"] == "trap"));
+            }
+        }
+        // the embedder's glue hands every run its source in the same reused block of memory
+        let mut session_src: Vec<u8> = Vec::with_capacity(1 << 20);
+        let mut prev_len = usize::MAX;
         for (k, &pi) in order.iter().enumerate() {
-            let src = source_of(&progs[pi]);
-            stage(&format!("alone {k}"));
-            let alone = isolated_run(&src, "playground.ns", progs[pi]["plant"] == "trap");
+            let alone = alone_of[pi].clone().unwrap();
+            session_src.clear();
+            session_src.extend_from_slice(source_of(&progs[pi]).as_bytes());
+            let src = std::str::from_utf8(&session_src).unwrap();
+            if src.len() == prev_len && k > 0 && order[k - 1] != pi {
+                res.count("consecutive_runs_of_different_sources_with_equal_length_and_address", 1);
+            }
+            prev_len = src.len();
             stage(&format!("session {k}"));
-            let got = playground_run(&src, "playground.ns");
+            let got = playground_run(src, "playground.ns");
             stage("between");
             res.count(&format!("runs_ending_{}", alone.ending), 1);
             if got != alone {
@@ -572,6 +590,31 @@ impl Engine for C14 {
         if nruns > 2 && r.chance(70) {
             order[nruns - 1] = order[0];
         }
+        // layout twins: the same program text behind two different paddings of equal length, run one
+        // after the other (same address, same length, other line numbers in every diagnostic)
+        if r.chance(35) {
+            let with_diag: Vec<usize> = (0..nprogs).filter(|k| programs[*k]["plant"] != "plain" && programs[*k]["plant"] != "trap").collect();
+            let pi = if with_diag.is_empty() { r.usize(0, nprogs - 1) } else { r.pick(&with_diag) };
+            let n = r.usize(1, 4);
+            let pad = |r: &mut Rng| (0..n).map(|_| if r.chance(50) { '\n' } else { ' ' }).collect::<String>();
+            let a = pad(&mut r);
+            let mut b = pad(&mut r);
+            if a == b {
+                b = if a.starts_with('\n') { format!(" {}", &a[1..]) } else { format!("\n{}", &a[1..]) };
+            }
+            let mut twin = programs[pi].clone();
+            programs[pi]["pad"] = json!(a);
+            twin["pad"] = json!(b);
+            programs[pi]["twin"] = json!(nprogs);
+            twin["twin"] = json!(pi);
+            programs.push(twin);
+            let at = r.usize(0, nruns - 2);
+            order[at] = pi;
+            order[at + 1] = nprogs;
+            if at + 2 < nruns && r.chance(50) {
+                order[at + 2] = pi;
+            }
+        }
         let scribble: Vec<u64> = (0..nruns).map(|_| if r.chance(70) { r.pick(&[0u64, 0x41, 0xdd, 0xff, 0x7b]) } else { 999 }).collect();
         json!({"kind": "session", "programs": programs, "order": order, "scribble": scribble, "wasm_like": r.chance(60)})
     }
@@ -639,7 +682,13 @@ impl Engine for C14 {
             let p = prog::block_from_json(&progs[pi]["prog"]);
             for cand in prog::shrink_candidates(&p, 120) {
                 let mut ps = progs.clone();
-                ps[pi] = json!({"prog": prog::block_to_json(&cand), "plant": progs[pi]["plant"]});
+                ps[pi]["prog"] = prog::block_to_json(&cand);
+                // layout twins shrink together (they must keep the same length)
+                if let Some(t) = progs[pi]["twin"].as_u64()
+                    && (t as usize) < ps.len()
+                {
+                    ps[t as usize]["prog"] = prog::block_to_json(&cand);
+                }
                 v.push(set("programs", json!(ps)));
             }
         }
